@@ -1,0 +1,70 @@
+//go:build verif
+
+// This file is compiled only with the "verif" build tag. It adds read-only
+// accessors and thin exported wrappers around the per-message handlers of the
+// Modify RPC so that an external verification harness can drive the protocol
+// one step at a time. It does not change the behaviour of the package.
+
+package server
+
+import (
+	spb "github.com/openconfig/gribi/v1/proto/service"
+	"github.com/openconfig/gribigo/rib"
+)
+
+// VerifElection returns the current primary's session ID and the election ID.
+func (s *Server) VerifElection() (string, *spb.Uint128) {
+	s.elecMu.RLock()
+	defer s.elecMu.RUnlock()
+	return s.curMaster, s.curElecID
+}
+
+// VerifSession is a copy of the server-side state of one session.
+type VerifSession struct {
+	Persist, ExpectElecID, FIBAck, SetParams bool
+	LastElecID                               *spb.Uint128
+}
+
+// VerifSessions returns a copy of the session table.
+func (s *Server) VerifSessions() map[string]VerifSession {
+	s.csMu.RLock()
+	defer s.csMu.RUnlock()
+	out := map[string]VerifSession{}
+	for id, c := range s.cs {
+		v := VerifSession{SetParams: c.setParams, LastElecID: c.lastElecID}
+		if c.params != nil {
+			v.Persist, v.ExpectElecID, v.FIBAck = c.params.Persist, c.params.ExpectElecID, c.params.FIBAck
+		}
+		out[id] = v
+	}
+	return out
+}
+
+// VerifRIB returns the server's RIB.
+func (s *Server) VerifRIB() *rib.RIB { return s.masterRIB }
+
+// VerifNewClient wraps newClient.
+func (s *Server) VerifNewClient(id string) error { return s.newClient(id) }
+
+// VerifDeleteClient wraps deleteClient.
+func (s *Server) VerifDeleteClient(id string) { s.deleteClient(id) }
+
+// VerifCheckParams wraps checkParams.
+func (s *Server) VerifCheckParams(id string, p *spb.SessionParameters, gotMsg bool) (*spb.ModifyResponse, error) {
+	return s.checkParams(id, p, gotMsg)
+}
+
+// VerifUpdateParams wraps updateParams.
+func (s *Server) VerifUpdateParams(id string, p *spb.SessionParameters) error {
+	return s.updateParams(id, p)
+}
+
+// VerifRunElection wraps runElection.
+func (s *Server) VerifRunElection(id string, elecID *spb.Uint128) (*spb.ModifyResponse, error) {
+	return s.runElection(id, elecID)
+}
+
+// VerifDoModify wraps doModify.
+func (s *Server) VerifDoModify(cid string, ops []*spb.AFTOperation, resCh chan *spb.ModifyResponse, errCh chan error) {
+	s.doModify(cid, ops, resCh, errCh)
+}
